@@ -217,6 +217,11 @@ fn(H1 + ".stream_send", params={"event": _ev.STREAM_EVENTS}, task="app",
        ("C18.ka.h11", "implies(isinstance(event, Response) and event.status_code >= 200 and old(self.keep_alive_requests) >= self.config.keep_alive_max_requests, "
         "trace_all('h11', 'x', x.headers[-1] == (b'connection', b'close')))", "C18,C06"),
        ("C02.h11.status", "implies(isinstance(event, Response), trace_all('h11', 'x', x.status_code == event.status_code))", "C02"),
+       # C12 "raises an error into the application": what h11 refuses to send (a body before a final
+       # head, more body than declared ...) is raised into the application -- a call that returns
+       # normally after a refusal has swallowed it, which is right only when the client side is in
+       # ERROR (its input was malformed and the connection is being torn down anyway)
+       ("C12.h11.refusal-reaches-the-application", "implies(n_emitted('h11_refused') >= 1, isinstance(self.connection, h11.Connection) and self.connection.their_state is h11.ERROR)", "C12"),
        # C02 "followed only by the server's own ... headers" / C11 "accept gives 101 ... and the extra
        # headers": an informational response (the WebSocket 101) carries the stream's headers and the
        # server's own, nothing else -- no `connection: close` next to its `connection: upgrade`
